@@ -108,7 +108,7 @@ func genC10(rng *rand.Rand, c *Case) {
 	c.Cfg["fan"] = 1 + rng.Intn(5)
 	c.Cfg["mode"] = rng.Intn(3) // 0 download, 1 upload, 2 upload then download (round trip)
 	c.Cfg["choiceseed"] = rng.Intn(1 << 30)
-	c.Cfg["cut"] = rng.Intn(2)
+	c.Cfg["cut"] = []int{0, 0, 0, 1, 2, 3, 4}[rng.Intn(7)] // 1/2 reset/close inside a resumed item, 3/4 close/reset inside a new item
 }
 
 // folderItemHeader encodes one folder-upload item header.
@@ -265,7 +265,7 @@ func (c *Client) folderDownload(w *World, folder string, nodes []treeNode, crng 
 }
 
 // folderUpload streams nodes (visible ones) to the server; cutAt >= 0 resets the connection after that many file-data bytes of the first resumed file.
-func (c *Client) folderUpload(w *World, folder string, nodes []treeNode, cut bool) bool {
+func (c *Client) folderUpload(w *World, folder string, nodes []treeNode, cut int) bool {
 	vis := walkOrder(nodes)
 	total := 0
 	for _, nd := range vis {
@@ -327,12 +327,17 @@ func (c *Client) folderUpload(w *World, folder string, nodes []treeNode, cut boo
 			ffo := rp.EncodeFFO(rp.InfoFork{Platform: "AMAC", Type: "TEXT", Creator: "ttxt", Name: []byte(filepath.Base(nd.Rel))}, nd.Data[off:], nil, false)
 			sz := make([]byte, 4)
 			binary.BigEndian.PutUint32(sz, uint32(len(ffo)))
-			if cut {
-				// the connection dies in the middle of the resumed file
+			if cut == 1 || cut == 2 {
+				// the connection dies in the middle of the resumed file: by a reset, or by the client closing it
 				part := append(sz, ffo[:len(ffo)-len(nd.Data[off:])/2-1]...)
 				_, _ = x.Write(part)
 				c.waitDrained(x)
-				x.Reset()
+				if cut == 2 {
+					_ = x.Close()
+					w.Probe("fault_cut_by_close_in_resumed_folder_item")
+				} else {
+					x.Reset()
+				}
 				w.Probe("fault_cut_in_resumed_folder_item")
 				Settle()
 				if got, err := os.ReadFile(full); err == nil && !bytes.Equal(got, nd.Data) {
@@ -358,6 +363,22 @@ func (c *Client) folderUpload(w *World, folder string, nodes []treeNode, cut boo
 			ffo := rp.EncodeFFO(rp.InfoFork{Platform: "AMAC", Type: "TEXT", Creator: "ttxt", Name: []byte(filepath.Base(nd.Rel))}, nd.Data, nil, false)
 			sz := make([]byte, 4)
 			binary.BigEndian.PutUint32(sz, uint32(len(ffo)))
+			if (cut == 3 || cut == 4) && len(nd.Data) >= 2 {
+				// the connection dies in the middle of a new file
+				_, _ = x.Write(append(sz, ffo[:len(ffo)-len(nd.Data)/2-1]...))
+				c.waitDrained(x)
+				if cut == 3 {
+					_ = x.Close()
+				} else {
+					x.Reset()
+				}
+				w.Probe("fault_cut_in_new_folder_item")
+				Settle()
+				if got, err := os.ReadFile(full); err == nil && !bytes.Equal(got, nd.Data) {
+					w.Violate("c10-truncated-file-published", "connection cut (%s) while %q was being sent: the final name now holds %d of %d bytes", []string{"", "", "", "close", "reset"}[cut], nd.Rel, len(got), len(nd.Data))
+				}
+				return false
+			}
 			_, _ = x.Write(append(sz, ffo...))
 			if a, err := readN(x, 2); err != nil || a[1] != 3 {
 				w.Violate("c10-upload-no-next", "after file %q: %v %v", nd.Rel, a, err)
@@ -437,11 +458,14 @@ func runC10(w *World) {
 		case 0:
 			c.folderDownload(w, "Folder", nodes, crng)
 		case 1, 2:
-			cut := cfg["cut"] == 1 && mode == 1
+			cut := 0
+			if mode == 1 {
+				cut = cfg["cut"]
+			}
 			if !c.folderUpload(w, "Folder", nodes, cut) {
 				return
 			}
-			if !cut {
+			if cut == 0 {
 				// every item has been acknowledged: a client that goes on at once (lists, downloads) must find the tree
 				compareTree(w, filepath.Join(w.FileRoot, "Folder"), nodes, "c10-uploaded-tree-differs-at-last-acknowledgement")
 				w.Probe("tree_compared_at_last_acknowledgement")
